@@ -23,6 +23,7 @@ pub fn run(id: &str) -> Result<String, String> {
         "F32" => f32_(),
         "F36" => f36(),
         "F37" => f37(),
+        "F38" => f38(),
         _ => Err(format!("unknown witness {id}")),
     }
 }
@@ -614,4 +615,57 @@ fn f37() -> Result<String, String> {
         match r { Err(_) => bad.push(format!("{what}: PANIC")), Ok(Err(e)) => bad.push(format!("{what}: {e}")), Ok(Ok(())) => {} }
     }
     if bad.is_empty() { Ok("\"cases\":6".into()) } else { Err(format!("CRAM write+read of records without quality scores fails: {}", bad.join("; "))) }
+}
+
+/// F38: every block of a written CRAM file must declare its true uncompressed size (C07: "declared raw sizes"); the
+/// fqzcomp branch of the slice writer declared the COMPRESSED length.  The file is parsed here with an independent
+/// minimal container/block walker (ITF8/LTF8 per CRAM 3.1 §2.3) and each fqzcomp block is decoded with the real codec.
+fn f38() -> Result<String, String> {
+    use noodles_sam as sam;
+    use sam::alignment::io::Write as _;
+    use noodles_cram::{codecs::Encoder, container::{block_content_encoder_map::Builder as MapBuilder, compression_header::data_series_encodings::DataSeries}};
+    let header: sam::Header = "@HD\tVN:1.6\n@SQ\tSN:sq0\tLN:100\n".parse().map_err(|e| format!("{e}"))?;
+    let repo = noodles_fasta::Repository::new(vec![noodles_fasta::Record::new(noodles_fasta::record::Definition::new("sq0", None), noodles_fasta::record::Sequence::from(vec![b'A'; 100]))]);
+    let map = MapBuilder::default().set_data_series_encoder(DataSeries::QualityScores, Some(Encoder::Fqzcomp)).build();
+    let mut w = noodles_cram::io::writer::Builder::default().set_reference_sequence_repository(repo).set_block_content_encoder_map(map).build_from_writer(Vec::new());
+    w.write_header(&header).map_err(|e| format!("write_header: {e}"))?;
+    let mut body = String::new();
+    for i in 0..20 { body.push_str(&format!("r{i}\t0\tsq0\t{}\t30\t30M\t*\t0\t0\t{}\t{}\n", 5 + i, "A".repeat(30), "IIIIIHHHHHGGGGGFFFFFEEEEEDDDDD")); }
+    let mut rd = sam::io::Reader::new(body.as_bytes());
+    for r in rd.record_bufs(&header) { let r = r.map_err(|e| format!("sam: {e}"))?; w.write_alignment_record(&header, &r).map_err(|e| format!("write: {e}"))?; }
+    w.try_finish(&header).map_err(|e| format!("finish: {e}"))?;
+    let data = w.get_ref().clone();
+    // ---- independent walker ----
+    fn itf8(b: &[u8], p: &mut usize) -> i32 {
+        let b0 = b[*p] as u32; *p += 1;
+        let (n, mut v) = if b0 < 0x80 { (0, b0) } else if b0 < 0xc0 { (1, b0 & 0x3f) } else if b0 < 0xe0 { (2, b0 & 0x1f) } else if b0 < 0xf0 { (3, b0 & 0x0f) } else { (4, b0 & 0x0f) };
+        for k in 0..n { let x = b[*p] as u32; *p += 1; v = if n == 4 && k == 3 { (v << 4) | (x & 0x0f) } else { (v << 8) | x }; }
+        v as i32
+    }
+    fn ltf8(b: &[u8], p: &mut usize) -> i64 { let b0 = b[*p]; *p += 1; let n = b0.leading_ones() as usize; let mut v = if n >= 8 { 0 } else { (b0 as u64) & (0xffu64 >> (n + 1)) }; for _ in 0..n { v = (v << 8) | b[*p] as u64; *p += 1; } v as i64 }
+    let mut p = 26usize; // file definition
+    let mut checked = 0; let mut bad = Vec::new();
+    while p + 4 <= data.len() {
+        let len = i32::from_le_bytes(data[p..p + 4].try_into().unwrap()) as usize; p += 4;
+        let _ref = itf8(&data, &mut p); let _s = itf8(&data, &mut p); let _span = itf8(&data, &mut p); let _n = itf8(&data, &mut p);
+        let _rc = ltf8(&data, &mut p); let _bases = ltf8(&data, &mut p); let n_blocks = itf8(&data, &mut p);
+        let n_lm = itf8(&data, &mut p); for _ in 0..n_lm { itf8(&data, &mut p); }
+        p += 4; // crc32
+        let end = p + len;
+        for _ in 0..n_blocks {
+            if p >= end { break; }
+            let method = data[p]; let _ct = data[p + 1]; p += 2;
+            let _id = itf8(&data, &mut p); let size = itf8(&data, &mut p) as usize; let raw = itf8(&data, &mut p) as usize;
+            let payload = &data[p..p + size]; p += size + 4;
+            if method == 7 {
+                checked += 1;
+                let dec = noodles_cram::codecs::verif_hooks::fqzcomp_decode(payload).map_err(|e| format!("fqzcomp decode: {e}"))?;
+                if dec.len() != raw { bad.push(format!("fqzcomp block declares raw size {raw} but holds {} bytes ({} compressed)", dec.len(), size)); }
+            }
+        }
+        p = end;
+    }
+    if checked == 0 { return Err("witness did not reach an fqzcomp block".into()); }
+    if !bad.is_empty() { return Err(format!("CRAM writer declares a wrong uncompressed size: {}", bad.join("; "))); }
+    Ok(format!("\"fqzcomp_blocks\":{checked}"))
 }
